@@ -337,8 +337,19 @@ pub fn generate(profile: &str, seed: u64, index: u64) -> NScenario {
     // near fakes live in the last page of the target arena
     let n_near = 2 + rng.below(3) as usize;
     let mut fake_ids: Vec<usize> = Vec::new();
+    // (in a third of the layouts the first of them starts exactly on the page boundary)
+    let near_base = if rng.chance(1, 3) {
+        classes.push("fake-page-aligned".into());
+        0
+    } else {
+        0x800
+    };
     for i in 0..n_near {
-        let a = base + 2 * PS + 0x800 + 16 * i as u64;
+        let mut a = base + 2 * PS + near_base + 16 * i as u64;
+        // never on top of a function placed earlier (targets may run over into this page)
+        while funcs.iter().any(|(x, _)| (*x as i64 - a as i64).abs() < 16) {
+            a += 16;
+        }
         let k = funcs.len();
         funcs.push((a, id_for(k)));
         fake_ids.push(k);
@@ -908,7 +919,9 @@ impl<'a> Run<'a> {
                 self.named[t] = true;
                 self.model[t].push(val);
                 if !op.fault.is_empty() && op.fault != "enomem_transient" && (fl.fired_enomem > 0 || fl.fired_mprotect > 0) {
-                    self.v("install-succeeded-despite-refused-syscall", &["C11"], format!("{what}: the OS refused ({}) yet the installation reported success", op.fault));
+                    // legitimate for an OS call the installation does not depend on; the function is
+                    // judged by its behaviour (the model says: faked)
+                    self.probe("install_succeeded_although_an_os_call_was_refused");
                 }
                 let off = self.target_addr(t) % PS;
                 if off + 5 > PS {
@@ -995,8 +1008,33 @@ pub fn setup_memory(sc: &NScenario) -> Result<(), String> {
 }
 
 /// Runs inside the forked child.
+/// Sanity rules for a (possibly minimised / hand-edited) scenario: functions do not overlap.
+fn well_formed(sc: &NScenario) -> Result<(), String> {
+    if sc.pitch != 8 && sc.pitch != 16 {
+        return Err("pitch".into());
+    }
+    // `<prologue> mov eax, id; ret` needs up to 11 bytes, without prologue 6
+    if sc.pitch < 16 && sc.prologues {
+        return Err("prologues need 16-byte slots".into());
+    }
+    for (i, (a, _)) in sc.funcs.iter().enumerate() {
+        for (b, _) in &sc.funcs[i + 1..] {
+            if (*a as i64 - *b as i64).unsigned_abs() < sc.pitch {
+                return Err(format!("functions overlap: {a:#x} {b:#x}"));
+            }
+        }
+        if !sc.arenas.iter().any(|(s, p)| *a >= *s && *a + sc.pitch <= *s + *p * PS) {
+            return Err(format!("function {a:#x} outside the arenas"));
+        }
+    }
+    Ok(())
+}
+
 pub fn execute(sc: &NScenario, sh: &Shared) -> Value {
     sh.note(PH_SETUP, 0, 0, 0);
+    if let Err(e) = well_formed(sc) {
+        return json!({"skipped": format!("ill-formed scenario: {e}")});
+    }
     if let Err(e) = setup_memory(sc) {
         return json!({"skipped": e});
     }
